@@ -8,7 +8,7 @@ VERIF = tlc.VERIF
 
 
 def make_pool(rnd):
-    """6 sources: accepted and rejected, covering the defaulted-NoneValue paths (no ORG, no operands, data only, PCR, expressions)"""
+    """8 sources: accepted and rejected, covering the defaulted-NoneValue paths (no ORG, no operands, data only, PCR, expressions)"""
     pool = [README]
     pool.append([" NOP \n", " RTS \n", " SWI \n"])                                   # no ORG, no operands, no labels
     prog, _ = proggen.gen_program(rnd, 6, 14, faults=False)
@@ -21,12 +21,19 @@ def make_pool(rnd):
     k = rnd.randrange(len(m))
     m[k] = mutate_line(rnd, m[k])
     pool.append(m)                                                                  # a mutated program (accepted or rejected)
+    # two programs that include the same file with its labels at different statement positions, and a very long label
+    pool.append([" ORG $0E00\n", " INCLUDE lib.asm\n", "START LDA #1\n", " JMP DONE\n", " BRA LIBTOP\n"])
+    pool.append([" ORG $0E00\n", "VERYLONGLABELNAME1 NOP \n", " NOP \n", " LDX #VERYLONGLABELNAME1\n", " INCLUDE lib.asm\n", " JMP DONE\n", " LDA LIBTOP,PCR\n"])
     return pool
+
+
+LIBFILES = {"lib.asm": "LIBTOP LDB #2\n BEQ DONE\n STB $0400\nDONE RTS \n"}
 
 
 def warm(args):
     pool, hist = args
-    return sessionrun.run_history(pool, hist, "warm")
+    os.environ["VERIF_SCRATCH"] = tlc.OUT
+    return sessionrun.run_history(pool, hist, "warm", LIBFILES)
 
 
 def fresh(args):
@@ -34,8 +41,9 @@ def fresh(args):
     env = dict(os.environ)
     env["PYTHONHASHSEED"] = str(seed)
     env["COCOASM_VERIF"] = "1"
+    env["VERIF_SCRATCH"] = tlc.OUT
     p = subprocess.run([sys.executable, "-c", "import sys; sys.path.insert(0, %r); from harness import sessionrun; sessionrun.main()" % VERIF],
-                       input=json.dumps({"pool": pool, "hist": hist, "cfg": "fresh-seed-%s" % seed}).encode(), stdout=subprocess.PIPE, stderr=subprocess.PIPE, env=env, timeout=120)
+                       input=json.dumps({"pool": pool, "hist": hist, "cfg": "fresh-seed-%s" % seed, "files": LIBFILES}).encode(), stdout=subprocess.PIPE, stderr=subprocess.PIPE, env=env, timeout=120)
     if p.returncode != 0:
         raise tlc.MachineryError("session subprocess failed: " + p.stderr.decode()[-400:])
     return json.loads(p.stdout.decode())
@@ -45,7 +53,7 @@ def run(ctx):
     thorough = ctx.tier == "thorough"
     rnd = random.Random(ctx.seed * 715225739 + 17)
     hists, r = tlc.export("MC_Session", workers=4)
-    ctx.add_model("MC_Session(pool 6, length 4)", r, {"invariants": ["Deterministic", "MemoSound"]})
+    ctx.add_model("MC_Session(pool 8, length 4)", r, {"invariants": ["Deterministic", "MemoSound"]})
     uniq = sorted(set(tuple(h) for h in hists))
     rnd.shuffle(uniq)
     n = len(uniq) if thorough else 220
@@ -83,8 +91,8 @@ def run(ctx):
                 nv += 1
     ctx.add_suite("histories", len(traces), len(traces), time.time() - t0, {"violating_items": nv, "assemblies": sum(len(t["events"]) for t in traces)})
     ctx.sample({"hist": [e["src"] for e in traces[0]["events"]], "cfgs": sorted(set(e["cfg"] for e in traces[0]["events"])), "outcomes": [e["out"]["outcome"] for e in traces[0]["events"]]})
-    ctx.cov["rule"] = ("every order of <= 4 assemblies over a pool of 6 sources (README example, operand-less program, random valid program, translation error, duplicate label, "
-                       "mutated program; pools re-drawn per seed), TLC-exported; each history is run warm in one interpreter and again in a fresh process under PYTHONHASHSEED "
+    ctx.cov["rule"] = ("every order of <= 4 assemblies over a pool of 8 sources (README example, operand-less program, random valid program, translation error, duplicate label, "
+                       "mutated program, two programs that INCLUDE the same file at different positions, one with a label longer than the listing column; pools re-drawn per seed), TLC-exported; each history is run warm in one interpreter and again in a fresh process under PYTHONHASHSEED "
                        "0/1/2/12345/random; every event carries the full image, listing and symbol table; Tr_Session demands equality with the first output seen for that source, "
                        "and that the input list is unchanged. distinct_nontrivial = (outcome pattern, events) classes")
 
